@@ -20,7 +20,7 @@ class C02(GProp):
              'tephra-combinator/src/bracket.rs', 'tephra/src/lexer.rs', 'tephra-error/src/error/lexer.rs']
     rule = ('seeded random grammars whose repetition bodies are non-nullable: delimited lists (all four entry points, bounds, abort '
             'sets) with malformed items/last items/missing separators, stabilize around recovering and non-recovering parsers, '
-            'every recovery strategy incl. recovery point = current token and none installed, repetition and bracket families, '
+            'every recovery strategy incl. recovery point = current token and none installed, repetition and bracket families (bracket scans with abort tokens before, inside and after the brackets), '
             'on random texts, sink on/off; each case runs in a supervised process with a per-case wall-clock limit and a 4 GiB '
             'address-space cap; a case that does not return is the failing observation and must coincide with fuel exhaustion of '
             'the model; non-trivial = grammar containing list/stabilize/recover on a text where some item fails; distinct by case')
@@ -54,6 +54,13 @@ class C02(GProp):
             else:
                 g = ['both', ['recover', ['before', 'Semi'], ['one', 'A']], gen_list(r)]
             t = spangen.random_text(r, alpha, 12 if tier == 'quick' else 24)
+            if i % 9 == 8:
+                # the bracket scan with a non-trivial abort set: abort tokens before, inside and after the brackets, nested and
+                # unclosed brackets (the scan must step over every token exactly once)
+                inner = r.choice([['repeat', 0, 'inf', ['any', 'A', 'B', 'Comma', 'Semi']], ['one', 'A'], gen_list(r, kinds=('A', 'B'))])
+                g = [r.choice(['bracket', 'bracketdef', 'bracketidx', 'bracketdefidx']), ['LK', 'LP'], inner, ['RK', 'RP'],
+                     r.choice([['Semi'], ['Semi', 'Comma'], ['C']])]
+                t = spangen.random_text(r, ['a', 'b', 'c', 'comma', 'semi', 'semi', 'sp', 'lk', 'lk', 'rk', 'rk', 'lp', 'rp'], 10)
             n += 1
             out.append(parsegen.parse_case('c%d' % n, t, g, sink=r.below(2)))
         return out
